@@ -217,14 +217,24 @@ Section Keeps.
     index_output true f = Ok out -> Permutation (records f) (records out).
   Proof.
     unfold index_output. rewrite read_plain_closed by exact W. cbn [bind]. fold V. fold d.
-    destruct (tabix_okb (to_str (sort_data d))); [|discriminate].
+    destruct (tabix_accepts (to_str (sort_data d))); [|discriminate].
     intros E. inversion E; subst. apply sorted_output_keeps_records.
   Qed.
 End Keeps.
 
 (* --no-sort: every line, header and extra fields included, verbatim *)
 Lemma index_nosort_verbatim f out : index_output false f = Ok out -> out = f.
-Proof. unfold index_output. destruct (tabix_okb f); [|discriminate]. now inversion 1. Qed.
+Proof. unfold index_output. destruct (tabix_accepts f); [|discriminate]. now inversion 1. Qed.
 
-Lemma index_nosort_accepts f : tabix_okb f = true -> index_output false f = Ok f.
+Lemma index_nosort_accepts f : tabix_accepts f = true -> index_output false f = Ok f.
 Proof. unfold index_output. now intros ->. Qed.
+
+(* and refused otherwise: the two cases are exhaustive *)
+Lemma index_nosort_refuses f : tabix_accepts f = false -> index_output false f = Err E_OS.
+Proof. unfold index_output. now intros ->. Qed.
+
+Lemma tabix_accepts_okb f : tabix_accepts f = true -> tabix_okb f = true.
+Proof. unfold tabix_accepts. intros H. apply andb_true_iff in H. tauto. Qed.
+
+Lemma tabix_accepts_range f : tabix_accepts f = true -> range_okb f = true.
+Proof. unfold tabix_accepts. intros H. apply andb_true_iff in H. tauto. Qed.
